@@ -239,6 +239,25 @@ def update_fields_roles(fi) -> dict:
     return out
 
 
+def derived_in_new_rule(repo: Repo, rep: Report, rid: str) -> None:
+    rep.rule(rid, "every attribute derived from the field list is computed by _update_fields (which commit() re-runs): the class constructor "
+                  "StructureMetaType.__new__ stores nothing into the class dict that it computes from 'fields' itself")
+    fi = repo.func("types/structure.py", "StructureMetaType.__new__")
+    fields_names = {t.id for st in walk_body(fi.node.body) for t in ast.walk(st) if isinstance(t, ast.Name) and isinstance(t.ctx, ast.Store)
+                    and any(isinstance(c, ast.Constant) and c.value == "fields" for c in ast.walk(st))}
+    fields_names |= {"fields"}
+    bad = []
+    for st in walk_body(fi.node.body):
+        if isinstance(st, ast.Assign) and any(isinstance(t, ast.Subscript) and norm(t.value) == "classdict" for t in st.targets):
+            if any(isinstance(x, ast.Name) and x.id in fields_names for x in ast.walk(st.value)):
+                bad.append(st)
+    calls = [c for c in walk_body(fi.node.body) if isinstance(c, ast.Call) and call_name(c) == "_update_fields"]
+    rep.check(not bad and len(calls) == 1, rid, f"{fi.key}:derived", "__new__ only delegates to _update_fields",
+              f"'{short(bad[0], 70) if bad else ''}' computes a class attribute from the field list in __new__: commit() does not re-run __new__, so the attribute "
+              "keeps the value of the first field list after add_field (a structure that started with one char field keeps taking the bytes shortcut)",
+              fi.loc(bad[0]) if bad else fi.loc())
+
+
 def run(repo: Repo, rep: Report, tier: str) -> None:
     commit_rule(repo, rep, "C18.R1")
     refresh_rule(repo, rep, "C18.R2")
@@ -263,6 +282,8 @@ def run(repo: Repo, rep: Report, tier: str) -> None:
     from .c08 import call_shortcut_rule
 
     call_shortcut_rule(repo, rep, "C18.R9")
+    derived_in_new_rule(repo, rep, "C18.R10")
+
 
 
 
